@@ -2,6 +2,8 @@ package core
 
 import (
 	"sync"
+	"sync/atomic"
+	"time"
 
 	"cuelabs.dev/go/oci/ociregistry/simhook"
 )
@@ -22,14 +24,23 @@ func (h seqHooks) RWLock(m *sync.RWMutex)         { m.Lock() }
 func (h seqHooks) RWUnlock(m *sync.RWMutex)       { m.Unlock() }
 func (h seqHooks) RLock(m *sync.RWMutex)          { m.RLock() }
 func (h seqHooks) RUnlock(m *sync.RWMutex)        { m.RUnlock() }
-func (h seqHooks) Go(f func())                    { go f() }
-func (h seqHooks) OnceDo(o *sync.Once, f func())  { o.Do(f) }
-func (h seqHooks) CondWait(c *sync.Cond)          { c.Wait() }
-func (h seqHooks) CondSignal(c *sync.Cond)        {}
-func (h seqHooks) CondBroadcast(c *sync.Cond)     {}
-func (h seqHooks) GoForeign(f func()) bool        { return false }
-func (h seqHooks) Woke()                          {}
-func (h seqHooks) SelectPref(n int) int           { return 0 }
+func (h seqHooks) Go(f func()) {
+	// work the library leaves running when a call returns: counted, so that the scenario
+	// can let it finish before its next step (Settle)
+	seqAsync.pending.Add(1)
+	seqAsync.started.Add(1)
+	go func() {
+		defer seqAsync.pending.Add(-1)
+		f()
+	}()
+}
+func (h seqHooks) OnceDo(o *sync.Once, f func()) { o.Do(f) }
+func (h seqHooks) CondWait(c *sync.Cond)         { c.Wait() }
+func (h seqHooks) CondSignal(c *sync.Cond)       {}
+func (h seqHooks) CondBroadcast(c *sync.Cond)    {}
+func (h seqHooks) GoForeign(f func()) bool       { return false }
+func (h seqHooks) Woke()                         {}
+func (h seqHooks) SelectPref(n int) int          { return 0 }
 func (h seqHooks) RandRead(b []byte) (int, error) {
 	copy(b, h.env.randBytes(len(b)))
 	return len(b), nil
@@ -38,6 +49,39 @@ func (h seqHooks) Perm(kind string, n int) []int { return h.env.C.Perm(kind, n) 
 func (h seqHooks) Coin(kind string) bool         { return h.env.C.Bool(kind, 1, 2) }
 
 func installSeq(env *Env) func() {
+	seqAsync.gaveUp.Store(false)
 	simhook.Install(seqHooks{env})
 	return func() { simhook.Install(nil) }
+}
+
+// seqAsync counts the goroutines the library has started in a scenario that runs
+// without a scheduler and that have not ended yet.
+var seqAsync struct {
+	pending atomic.Int64
+	started atomic.Int64
+	gaveUp  atomic.Bool
+}
+
+// AsyncStarted is the number of goroutines the library has started so far in scenarios
+// that run without a scheduler (it only grows).
+func AsyncStarted() int64 { return seqAsync.started.Load() }
+
+// Settle is called by scenarios that run without a scheduler at the end of each of their
+// steps: if the library has left work running in the background (a goroutine that
+// outlives the call that started it), the scenario's next step waits until that work
+// has ended, so that the run stays a sequence and replays. On a library that finishes
+// what it does before it returns this is a counter read. Work that does not end by
+// itself within two seconds is not waited for again in this run.
+func Settle() {
+	if seqAsync.pending.Load() == 0 || seqAsync.gaveUp.Load() {
+		return
+	}
+	deadline := time.Now().Add(2 * time.Second)
+	for seqAsync.pending.Load() > 0 {
+		if time.Now().After(deadline) {
+			seqAsync.gaveUp.Store(true)
+			return
+		}
+		time.Sleep(20 * time.Microsecond)
+	}
 }
